@@ -103,6 +103,10 @@ type Explorer struct {
 	start       time.Time
 	lastPath    []int32
 	countPruned bool
+	buckets     [][]*node
+	pending     int
+	minDepth    int
+	DeepFirst   bool // take the deepest pending alternative first (classic DFS order)
 	Skipped     int // alternatives not taken because of the preemption bound
 	// CollectProj: record Project() of every state reached (cross-check)
 	CollectProj bool
@@ -169,7 +173,7 @@ func (e *Explorer) Run() (res *Result) {
 	}()
 	root := &node{state: -1}
 	stack := []*node{root}
-	for len(stack) > 0 {
+	for len(stack) > 0 || e.pending > 0 {
 		if e.Budget > 0 && time.Since(e.start) > e.Budget {
 			e.res.BudgetHit = true
 			e.res.Exhaustive = false
@@ -180,8 +184,37 @@ func (e *Explorer) Run() (res *Result) {
 			e.res.Exhaustive = false
 			break
 		}
-		n := stack[len(stack)-1]
-		stack = stack[:len(stack)-1]
+		// pending alternatives are taken shallowest first (buckets by depth):
+		// replaying a short prefix is cheap, and a run that is cut by its budget has
+		// then covered every state up to some depth instead of an arbitrary deep corner
+		var n *node
+		if e.DeepFirst {
+			n = stack[len(stack)-1]
+			stack = stack[:len(stack)-1]
+		} else {
+			for _, x := range stack {
+				d := int(x.depth)
+				for len(e.buckets) <= d {
+					e.buckets = append(e.buckets, nil)
+				}
+				e.buckets[d] = append(e.buckets[d], x)
+				e.pending++
+				if d < e.minDepth {
+					e.minDepth = d
+				}
+			}
+			stack = stack[:0]
+			for e.minDepth < len(e.buckets) && len(e.buckets[e.minDepth]) == 0 {
+				e.minDepth++
+			}
+			if e.minDepth >= len(e.buckets) {
+				break
+			}
+			b := e.buckets[e.minDepth]
+			n = b[len(b)-1]
+			e.buckets[e.minDepth] = b[:len(b)-1]
+			e.pending--
+		}
 		stack = e.execute(n, stack)
 		if e.res.Violation != nil {
 			break
